@@ -8,6 +8,12 @@ pub const QCAP: usize = 6;
 pub const NQ: usize = 6;
 
 pub struct Queue<T> {
+    /// payloads that can be flattened into words (`Pooled::to_words`) travel here by plain u128
+    /// assignment: `Option::take` / `mem::replace` on `buf` are memcpy intrinsics and whatever
+    /// passes through them is opaque to CBMC's constant propagation (observed: the `(last_id,
+    /// count)` hand-off from the history thread made the live task's `count >= limit` symbolic
+    /// and its receive loop unwound to the global bound)
+    pub wbuf: [[u128; 3]; QCAP],
     pub buf: [Option<T>; QCAP],
     pub head: usize,
     pub len: usize,
@@ -25,6 +31,7 @@ pub struct Queue<T> {
 }
 impl<T> Queue<T> {
     pub const NEW: Queue<T> = Queue {
+        wbuf: [[0; 3]; QCAP],
         buf: [const { None }; QCAP],
         head: 0,
         len: 0,
@@ -36,8 +43,23 @@ impl<T> Queue<T> {
         tx_dropped: false,
         cursor: 0,
     };
-    pub fn push(&mut self, v: T) {
+    pub fn push(&mut self, v: T)
+    where
+        T: Pooled,
+    {
         let at = (self.head + self.len) % QCAP;
+        if let Some(w) = v.to_words() {
+            let mut i = 0;
+            while i < QCAP {
+                if i == at {
+                    self.wbuf[i] = w;
+                }
+                i += 1;
+            }
+            self.len += 1;
+            core::mem::forget(v);
+            return;
+        }
         let mut item = Some(v);
         let mut i = 0;
         while i < QCAP {
@@ -48,9 +70,25 @@ impl<T> Queue<T> {
         }
         self.len += 1;
     }
-    pub fn pop(&mut self) -> Option<T> {
+    pub fn pop(&mut self) -> Option<T>
+    where
+        T: Pooled,
+    {
         if self.len == 0 {
             return None;
+        }
+        if T::WORDS {
+            let mut w = [0u128; 3];
+            let mut i = 0;
+            while i < QCAP {
+                if i == self.head {
+                    w = self.wbuf[i];
+                }
+                i += 1;
+            }
+            self.head = (self.head + 1) % QCAP;
+            self.len -= 1;
+            return Some(T::from_words(w));
         }
         let mut out = None;
         let mut i = 0;
@@ -114,6 +152,7 @@ impl<T> Sub<T> {
                 core::mem::forget(core::mem::replace(&mut q.buf[k], None));
                 k += 1;
             }
+            q.wbuf = [[0; 3]; QCAP];
             q.head = 0;
             q.len = 0;
             q.cap = QCAP;
@@ -146,6 +185,14 @@ impl<T> Pool<T> {
 /// payload types that can travel through model channels
 pub trait Pooled: Sized + 'static {
     fn pool() -> &'static mut Pool<Self>;
+    /// true for payloads that travel as words
+    const WORDS: bool = false;
+    fn to_words(&self) -> Option<[u128; 3]> {
+        None
+    }
+    fn from_words(_w: [u128; 3]) -> Self {
+        unreachable!()
+    }
 }
 
 #[macro_export]
@@ -163,4 +210,37 @@ macro_rules! pooled {
 
 // payloads that are not xs-private
 pooled!((), POOL_UNIT);
-pooled!((Option<scru128::Scru128Id>, usize), POOL_DONE);
+static mut POOL_DONE: Pool<(Option<scru128::Scru128Id>, usize)> = Pool::NEW;
+impl Pooled for (Option<scru128::Scru128Id>, usize) {
+    #[allow(static_mut_refs)]
+    fn pool() -> &'static mut Pool<Self> {
+        unsafe { &mut POOL_DONE }
+    }
+    const WORDS: bool = true;
+    fn to_words(&self) -> Option<[u128; 3]> {
+        Some([
+            if self.0.is_some() { 1 } else { 0 },
+            match self.0 {
+                Some(id) => id.to_u128(),
+                None => 0,
+            },
+            self.1 as u128,
+        ])
+    }
+    fn from_words(w: [u128; 3]) -> Self {
+        (if w[0] == 1 { Some(scru128::Scru128Id::from_u128(w[1])) } else { None }, w[2] as usize)
+    }
+}
+
+/// concrete budget of successful broadcast receives per harness (see broadcast::model_try_recv)
+pub static mut RECV_BUDGET: u32 = 8;
+pub fn budget_spent() -> bool {
+    unsafe { RECV_BUDGET == 0 }
+}
+pub fn spend() {
+    unsafe {
+        if RECV_BUDGET > 0 {
+            RECV_BUDGET -= 1;
+        }
+    }
+}
